@@ -55,7 +55,8 @@ Definition rstep (cf : cfg) : rstate -> rop -> rstate * outcome PV nat :=
   step PV nat CV r_p0 r_empty r_zero r_fill r_regrid r_call r_fits geqt same_domt alignt ffdsubt cf.
 
 (* what the implementation reported *)
-Inductive iout := IDone | IErr (e : err) | IObs (val : list Qc) (shape : option (list nat)).
+Inductive iout := IDone | IErr (e : err) | IObs (val : list Qc) (shape : option (list nat))
+| ISkip.   (* the observed field is not constant: the history left the domain in which constants identify versions *)
 
 Fixpoint vaddq (a b : list Qc) : list Qc :=
   match a, b with
@@ -107,6 +108,7 @@ Definition agrees (tol : Q) (s : rstate) (x : rop) (m : outcome PV nat) (i : iou
 (* 0 = the whole history agrees; k+1 = first disagreement at operation k *)
 Fixpoint check_from (cf : cfg) (tol : Q) (k : nat) (s : rstate) (h : list rop) (r : list iout) : nat :=
   match h, r with
+  | x :: h', ISkip :: r' => 0
   | x :: h', i :: r' =>
       let (s', m) := rstep cf s x in
       match m with
